@@ -89,6 +89,25 @@ def context_reads(f: FuncInfo) -> List[Tuple[str, ast.AST, bool]]:
                 for x in ast.walk(s):
                     if isinstance(x, ast.Attribute) and norm(x.value) == p and x.attr == n.test.left.value:
                         guards.add(id(x))
+        # conditional expression / short-circuit forms of the same guard: ``ctx.x if 'x' in ctx else d``, ``'x' in ctx and ctx.x``
+        def _is_guard(t):
+            return isinstance(t, ast.Compare) and len(t.ops) == 1 and isinstance(t.ops[0], ast.In) and norm(t.comparators[0]) == p and isinstance(t.left, ast.Constant)
+        if isinstance(n, ast.IfExp) and _is_guard(n.test):
+            for x in ast.walk(n.body):
+                if isinstance(x, ast.Attribute) and norm(x.value) == p and x.attr == n.test.left.value:
+                    guards.add(id(x))
+        if isinstance(n, ast.BoolOp) and isinstance(n.op, ast.And):
+            for i, t in enumerate(n.values):
+                if _is_guard(t):
+                    for later in n.values[i + 1:]:
+                        for x in ast.walk(later):
+                            if isinstance(x, ast.Attribute) and norm(x.value) == p and x.attr == t.left.value:
+                                guards.add(id(x))
+        if isinstance(n, ast.If) and isinstance(n.test, ast.Compare) and isinstance(n.test.ops[0], ast.NotIn) and norm(n.test.comparators[0]) == p and isinstance(n.test.left, ast.Constant):
+            for s_ in n.orelse:
+                for x in ast.walk(s_):
+                    if isinstance(x, ast.Attribute) and norm(x.value) == p and x.attr == n.test.left.value:
+                        guards.add(id(x))
         if isinstance(n, ast.Try) and any(h.type is not None and 'AttributeError' in unparse(h.type) for h in n.handlers):
             for s in n.body:
                 for x in ast.walk(s):
@@ -139,7 +158,14 @@ def init_fields(c: ClassInfo) -> Dict[str, ast.AST]:
 def _self_attrs(canon, e: ast.AST) -> Set[str]:
     """Attributes of self read by expression ``e`` (trivial properties resolved to the attribute they return)."""
     out: Set[str] = set()
+    # a local that merely names a self attribute (``cb = self.done_callback; ... cb.__name__``) stands for that attribute
+    extra = []
     for n in ast.walk(e):
+        if isinstance(n, ast.Name) and isinstance(n.ctx, ast.Load) and n.id != 'self':
+            ce = canon.expr(n)
+            if ce is not n:
+                extra.append(ce)
+    for n in list(ast.walk(e)) + [x for ce in extra for x in ast.walk(ce)]:
         if isinstance(n, ast.Attribute) and isinstance(n.value, ast.Name) and n.value.id == 'self' and isinstance(n.ctx, ast.Load):
             ce = canon.expr(n)
             for m in ast.walk(ce):
